@@ -136,6 +136,16 @@ func rewrite(src, dst, pointRe, subs string) error {
 	var re *regexp.Regexp
 	if pointRe != "" {
 		re = regexp.MustCompile(pointRe)
+		// statements without positions are going to be inserted: comments inside the declarations would be
+		// re-attached at arbitrary places by the printer (and can swallow code), so only those in front of the
+		// package clause (build constraints) are kept
+		var keep []*ast.CommentGroup
+		for _, cg := range f.Comments {
+			if cg.End() < f.Package {
+				keep = append(keep, cg)
+			}
+		}
+		f.Comments = keep
 	}
 	if (hasGo || re != nil) && syncName == "" {
 		syncName = "vsyncrt"
@@ -153,7 +163,12 @@ func rewrite(src, dst, pointRe, subs string) error {
 				continue
 			}
 			if re != nil {
-				if _, isBlock := st.(*ast.BlockStmt); !isBlock {
+				_, isBlock := st.(*ast.BlockStmt)
+				switch st.(type) {
+				case *ast.CaseClause, *ast.CommClause, *ast.LabeledStmt:
+					isBlock = true // (the clauses of a switch/select are the elements of its block: nothing can stand between them)
+				}
+				if !isBlock {
 					first := strings.SplitN(text(st), "\n", 2)[0]
 					if re.MatchString(first) {
 						out = append(out, &ast.ExprStmt{X: &ast.CallExpr{Fun: sel(syncName, "Point"), Args: []ast.Expr{&ast.BasicLit{Kind: token.STRING, Value: strconv.Quote(strings.TrimSpace(first))}}}})
